@@ -130,6 +130,7 @@ def run(ctx):
                 ctx.violation(key, 'template %r\n  table %r\n  real  %r\n  model %r' % (src, table, got, w),
                               {'kind': 'model', 'src': src, 'table': {str(k): v for k, v in table.items()}, 'model': w})
     layer_error_variable(ctx, 30 if ctx.quick else 500)
+    layer_failing_omit_tag(ctx, 15 if ctx.quick else 150)
     layer_metal(ctx, 40 if ctx.quick else 600)
     layer_start_tag_options(ctx, 40 if ctx.quick else 800)
     layer_repeated_failures(ctx, 25 if ctx.quick else 400)
@@ -213,6 +214,31 @@ def layer_error_variable(ctx, n):
         if out != want or len(calls) != 1 or type(calls[0]).__name__ != exc:
             ctx.violation('error-variable', 'template %r failing with %s\n  rendered %r (handler calls %r)\n  expected %r' % (
                 src, exc, out, calls, want), {'kind': 'errvar', 'src': src})
+
+
+def layer_failing_omit_tag(ctx, n):
+    """The tal:omit-tag expression of the on-error element is part of what is guarded: when it raises, the fallback is
+    rendered (with or without the element's tags - the statement leaves that open), the handler is called once, and nothing
+    escapes."""
+    from chameleon import PageTemplate
+    rng = ctx.rng
+    for case in range(n):
+        expr = rng.choice(['nosuchname', 'd.nokey', '1/0', 'f(1)', "int('x')"])
+        body = rng.choice(['x', '<b>x</b>', '${1}'])
+        src = 'A<div class="k" tal:on-error="string:E" tal:omit-tag="%s">%s</div>B' % (expr, body)
+        calls = []
+
+        def f(i):
+            raise KeyError(i)
+        try:
+            out = PageTemplate(src, on_error_handler=calls.append)(f=f, d={})
+        except Exception as e:
+            out = 'RAISED %s: %s' % (type(e).__name__, str(e).split('\n')[0][:80])
+        ctx.mon('failing-omit-tag-compared')
+        ctx.case(key=('failing-omit-tag', expr, body), nontrivial=True)
+        if out not in ('AEB', 'A<div class="k">E</div>B') or len(calls) != 1:
+            ctx.violation('failure-of-the-omit-tag-expression-escapes-the-element', 'template %r: rendered %r, handler calls %r' % (src, out, calls),
+                          {'kind': 'errvar', 'src': src})
 
 
 
